@@ -18,14 +18,15 @@ A field type is read as a tree (pv.x_codec.parse_type: lifetimes and references 
   leaf         anything else without type arguments (scalars, hashes, byte strings)
   unclassified a generic type of another crate that is in none of the lists: fail closed
 """
-from .x_codec import parse_type, type_str, spec
+import re
+
+from .x_codec import type_str, spec
 
 
 def short(ts):
     """pallas_primitives::conway::model::Block -> conway::Block ; alloc::vec::Vec -> Vec"""
     if isinstance(ts, tuple):
         ts = type_str(ts)
-    import re
 
     def one(m):
         p = m.group(0).split("::")
